@@ -554,6 +554,31 @@ func (n *node) RouteCallAlias(from gen.PID, to gen.Alias, options gen.MessageOpt
 	return nil
 }
 
+// addLocalRelation stores a link or monitor of pid on a local target. The
+// caller has just seen the target; it can disappear before the relation is
+// stored, and then its relations have already been collected: ours would
+// never be notified. So look again after the insert. If the target is gone
+// and the relation is still there, take it back and fail; if the termination
+// has taken it meanwhile, the exit/down message is on its way.
+func (n *node) addLocalRelation(pid gen.PID, target any, monitor bool, gone error, exists func() bool) error {
+	if monitor {
+		if err := n.targetManager.AddMonitor(pid, target); err != nil {
+			return err
+		}
+		if exists() == false && n.targetManager.RemoveMonitor(pid, target) == nil {
+			return gone
+		}
+		return nil
+	}
+	if err := n.targetManager.AddLink(pid, target); err != nil {
+		return err
+	}
+	if exists() == false && n.targetManager.RemoveLink(pid, target) == nil {
+		return gone
+	}
+	return nil
+}
+
 func (n *node) RouteLinkPID(pid gen.PID, target gen.PID) error {
 	if n.isRunning() == false {
 		return gen.ErrNodeTerminated
@@ -568,7 +593,10 @@ func (n *node) RouteLinkPID(pid gen.PID, target gen.PID) error {
 		if _, exist := n.processes.Load(target); exist == false {
 			return gen.ErrProcessUnknown
 		}
-		return n.targetManager.AddLink(pid, target)
+		return n.addLocalRelation(pid, target, false, gen.ErrProcessUnknown, func() bool {
+			_, exist := n.processes.Load(target)
+			return exist
+		})
 	}
 
 	// remote target
@@ -628,7 +656,10 @@ func (n *node) RouteLinkProcessID(pid gen.PID, target gen.ProcessID) error {
 		if _, exist := n.names.Load(target.Name); exist == false {
 			return gen.ErrProcessUnknown
 		}
-		return n.targetManager.AddLink(pid, target)
+		return n.addLocalRelation(pid, target, false, gen.ErrProcessUnknown, func() bool {
+			_, exist := n.names.Load(target.Name)
+			return exist
+		})
 	}
 
 	// remote target
@@ -685,7 +716,10 @@ func (n *node) RouteLinkAlias(pid gen.PID, target gen.Alias) error {
 		if _, exist := n.aliases.Load(target); exist == false {
 			return gen.ErrAliasUnknown
 		}
-		return n.targetManager.AddLink(pid, target)
+		return n.addLocalRelation(pid, target, false, gen.ErrAliasUnknown, func() bool {
+			_, exist := n.aliases.Load(target)
+			return exist
+		})
 	}
 
 	// remote target
@@ -750,7 +784,11 @@ func (n *node) RouteLinkEvent(pid gen.PID, target gen.Event) ([]gen.MessageEvent
 		}
 
 		event := value.(*eventOwner)
-		if err := n.targetManager.AddLink(pid, target); err != nil {
+		err := n.addLocalRelation(pid, target, false, gen.ErrEventUnknown, func() bool {
+			_, exist := n.events.Load(target)
+			return exist
+		})
+		if err != nil {
 			return nil, err
 		}
 
@@ -869,7 +907,10 @@ func (n *node) RouteMonitorPID(pid gen.PID, target gen.PID) error {
 				return gen.ErrProcessTerminated
 			}
 		}
-		return n.targetManager.AddMonitor(pid, target)
+		return n.addLocalRelation(pid, target, true, gen.ErrProcessTerminated, func() bool {
+			_, exist := n.processes.Load(target)
+			return exist
+		})
 	}
 
 	// remote target
@@ -932,7 +973,10 @@ func (n *node) RouteMonitorProcessID(pid gen.PID, target gen.ProcessID) error {
 				return gen.ErrProcessTerminated
 			}
 		}
-		return n.targetManager.AddMonitor(pid, target)
+		return n.addLocalRelation(pid, target, true, gen.ErrProcessTerminated, func() bool {
+			_, exist := n.names.Load(target.Name)
+			return exist
+		})
 	}
 
 	// remote target
@@ -991,7 +1035,10 @@ func (n *node) RouteMonitorAlias(pid gen.PID, target gen.Alias) error {
 		if _, exist := n.aliases.Load(target); exist == false {
 			return gen.ErrAliasUnknown
 		}
-		return n.targetManager.AddMonitor(pid, target)
+		return n.addLocalRelation(pid, target, true, gen.ErrAliasUnknown, func() bool {
+			_, exist := n.aliases.Load(target)
+			return exist
+		})
 	}
 
 	// remote target
@@ -1055,7 +1102,11 @@ func (n *node) RouteMonitorEvent(pid gen.PID, target gen.Event) ([]gen.MessageEv
 			return nil, gen.ErrEventUnknown
 		}
 		event := value.(*eventOwner)
-		if err := n.targetManager.AddMonitor(pid, target); err != nil {
+		err := n.addLocalRelation(pid, target, true, gen.ErrEventUnknown, func() bool {
+			_, exist := n.events.Load(target)
+			return exist
+		})
+		if err != nil {
 			return nil, err
 		}
 
